@@ -15,6 +15,7 @@
  */
 #pragma once
 
+#include <unifex/continuations.hpp>
 #include <unifex/bind_back.hpp>
 #include <unifex/get_stop_token.hpp>
 #include <unifex/inplace_stop_token.hpp>
@@ -97,6 +98,14 @@ private:
     return std::move(cpo)(r.get_receiver());
   }
 
+#if UNIFEX_ENABLE_CONTINUATION_VISITATIONS
+  template <typename Func>
+  friend void
+  tag_invoke(tag_t<visit_continuations>, const type& r, Func&& func) {
+    std::invoke(func, r.get_receiver());
+  }
+#endif
+
   inplace_stop_token get_stop_token() const noexcept {
     return op_->stopSource_.get_token();
   }
@@ -146,6 +155,14 @@ private:
           -> std::invoke_result_t<CPO, const Receiver&> {
     return std::move(cpo)(r.get_receiver());
   }
+
+#if UNIFEX_ENABLE_CONTINUATION_VISITATIONS
+  template <typename Func>
+  friend void
+  tag_invoke(tag_t<visit_continuations>, const type& r, Func&& func) {
+    std::invoke(func, r.get_receiver());
+  }
+#endif
 
   inplace_stop_token get_stop_token() const noexcept {
     return op_->stopSource_.get_token();
